@@ -1019,6 +1019,7 @@ class Spec:
     selftest_samples = 200
     fresh_samples = 60
     shrink_runs = 1200
+    slow_run_s = 0.05  # per run; above this the workers are unpinned
     shrink_wall_s = 90
     run_one = staticmethod(run_one)
     classify = staticmethod(classify)
